@@ -245,9 +245,15 @@ var wOKBy = map[string]int{}
 
 // runWitnessBatches returns the number of witnesses whose native run passed and a message per
 // witness whose native run did not (assumption false, assertion failed, panic, or no result).
-func runWitnessBatches(rp *replayer, witnesses map[string][]witnessItem) (int, []string) {
+type witnessBad struct {
+	item   witnessItem
+	status string
+	msg    string
+}
+
+func runWitnessBatches(rp *replayer, witnesses map[string][]witnessItem) (int, []witnessBad) {
 	ok := 0
-	var bad []string
+	var bad []witnessBad
 	var pkgs []string
 	for p := range witnesses {
 		pkgs = append(pkgs, p)
@@ -259,7 +265,7 @@ func runWitnessBatches(rp *replayer, witnesses map[string][]witnessItem) (int, [
 			continue
 		}
 		if err := rp.prepare(); err != nil {
-			bad = append(bad, "replay setup: "+err.Error())
+			bad = append(bad, witnessBad{msg: "replay setup: " + err.Error()})
 			continue
 		}
 		path := filepath.Join(rp.dir, "batch-"+strings.ReplaceAll(pkg, "/", "_")+".json")
@@ -283,12 +289,12 @@ func runWitnessBatches(rp *replayer, witnesses map[string][]witnessItem) (int, [
 			st, seen := status[k]
 			switch {
 			case !seen:
-				bad = append(bad, fmt.Sprintf("%s witness %d: no result from the native run (%s)", it.Exploration, k, firstLines(string(out), 3)))
+				bad = append(bad, witnessBad{item: it, msg: fmt.Sprintf("%s witness %d: no result from the native run (%s)", it.Exploration, k, firstLines(string(out), 3))})
 			case st == "pass":
 				ok++
 				wOKBy[it.Exploration]++
 			default:
-				bad = append(bad, fmt.Sprintf("%s: native run says %q on inputs %v choices %v", it.Exploration, st, it.Inputs, it.Choices))
+				bad = append(bad, witnessBad{item: it, status: st, msg: fmt.Sprintf("%s: native run says %q on inputs %v choices %v", it.Exploration, st, it.Inputs, it.Choices)})
 			}
 		}
 	}
@@ -682,7 +688,18 @@ func cmdCheck(args []string) int {
 		sums[k].Witnessed = wOKBy[sums[k].ID]
 	}
 	for _, m := range wBad {
-		notClean = append(notClean, "native re-execution of a sampled path disagrees: "+m)
+		// a native assertion failure that is a listed known finding (untagged ones only: tags are
+		// not known natively) is that finding showing under the real map iteration order
+		if strings.HasPrefix(m.status, "assert-failed:") {
+			if kfnd := matchFinding(kf.Findings, prop, m.item.Harness, strings.TrimPrefix(m.status, "assert-failed:"), "", m.item.Exploration); kfnd != nil && kfnd.Tag == "" {
+				if knownHit[kfnd.What] == 0 {
+					fmt.Printf("KNOWN-FINDING: property=%s %s [first seen: native re-execution of a sampled path of exploration=%s harness=%s inputs=%v]\n", prop, kfnd.What, m.item.Exploration, m.item.Harness, m.item.Inputs)
+				}
+				knownHit[kfnd.What]++
+				continue
+			}
+		}
+		notClean = append(notClean, "native re-execution of a sampled path disagrees: "+m.msg)
 	}
 	for _, l := range violLines {
 		fmt.Println(l)
